@@ -391,7 +391,7 @@ var spec = &hx.Spec[Case]{
 		"non-trivial = the history has a correct read spanning >= 2 chunks after a backwards seek, or a read crossing a null-chunk boundary, or a successful read after a delivered store fault; distinct by case content hash",
 	Assumptions: []string{
 		"oracle: the blob bytes and a cursor; chunk IDs computed with crypto/sha512 directly; content-defined cuts by the reference chunker",
-		"the FUSE file node is driven in-process through go-fuse's node API (Open/Read/Getattr of the inode's operations); the kernel FUSE path is not exercised",
+		"the FUSE file is driven in-process: even handles through the node API (Open/Read/Getattr of the inode's operations), odd handles through go-fuse's rawBridge (LOOKUP/OPEN/READ/RELEASE) returned by fs.NewNodeFS; the kernel FUSE path is not exercised",
 		"a FUSE read at an offset beyond the file size is outside the domain (the kernel never sends it): OK-with-no-data or an error are both accepted",
 		"a Seek beyond the end may either be refused (position unchanged) or accepted (later reads give 0 bytes and io.EOF)",
 		"store faults are attributed to FUSE reads by the goroutine that called GetChunk (the node is called synchronously)",
@@ -401,7 +401,7 @@ var spec = &hx.Spec[Case]{
 		"blob:empty", "blob:single-chunk", "blob:null-run", "blob:repeated-id", "blob:one-byte-chunk", "blob:tiled", "blob:content-defined",
 		"seek:refused", "seek:backward", "seek:to-end", "read:spans-chunks-after-backseek", "read:crosses-null", "read:at-eof", "read:to-eof",
 		"fault:delivered", "read:after-fault",
-		"fuse:concurrent", "fuse:shared-handle", "fuse:fault-delivered", "fuse:straddles-eof", "fuse:at-eof",
+		"fuse:concurrent", "fuse:shared-handle", "fuse:via-bridge", "fuse:fault-delivered", "fuse:straddles-eof", "fuse:at-eof",
 	},
 	Gen:      genCase,
 	Run:      run,
@@ -431,8 +431,8 @@ func enumBlobs() []Case {
 	}
 	all := []Case{
 		mk(2, [2]int{1, 7}, [2]int{2, 0}, [2]int{2, 0}, [2]int{2, 9}, [2]int{1, 7}, [2]int{1, 0}), // null run, repeated 1-byte chunk, short zero chunk
-		mk(3, [2]int{3, 5}),                      // single chunk
-		mk(3, [2]int{3, 0}, [2]int{3, 0}),        // only null chunks
+		mk(3, [2]int{3, 5}),                                           // single chunk
+		mk(3, [2]int{3, 0}, [2]int{3, 0}),                             // only null chunks
 		mk(1, [2]int{1, 3}, [2]int{1, 0}, [2]int{1, 3}, [2]int{1, 4}), // all 1-byte chunks, null chunk of one byte
 		mk(4, [2]int{2, 11}, [2]int{4, 12}, [2]int{4, 12}, [2]int{1, 13}),
 		mk(2), // empty
